@@ -138,13 +138,47 @@ func runCsv(cfg *config) {
 			}
 			sep := []rune{',', ',', ';', '\t', '|'}[rr.Intn(5)]
 			var sb strings.Builder
+			if rr.Chance(1, 6) {
+				// a first record that spells the destination column names where the mapping reads them (what a
+				// heading line would look like): a record like any other - stored when the columns are VARCHAR,
+				// reported when a number or a truth value is expected, never passed over in silence
+				hdr := make([]string, width)
+				for k := range hdr {
+					hdr[k] = "x"
+				}
+				for k := range dst {
+					var idx int
+					fmt.Sscan(src[k], &idx)
+					name := dst[k]
+					switch rr.Intn(3) {
+					case 1:
+						name = strings.ToUpper(name)
+					case 2:
+						name = " " + name + " "
+					}
+					hdr[idx] = name
+				}
+				sb.WriteString(strings.Join(hdr, string(sep)) + "\n")
+			}
 			for l, nl := 0, rr.Range(0, 12); l < nl; l++ {
 				w := width
 				switch rr.Intn(12) {
 				case 0:
 					w = rr.Intn(width + 1) // short record
 				case 1:
-					sb.WriteString("bad \"quote" + string(sep) + "x\n") // malformed quoting
+					// malformed quoting: a quote inside an unquoted field; a quoted field with text after its closing
+					// quote (a reader that is lenient about it swallows separators, line breaks and the records
+					// that follow up to the next quote before a separator); a quote that is never closed
+					switch rr.Intn(4) {
+					case 0:
+						sb.WriteString("bad \"quote" + string(sep) + "x\n")
+					case 1:
+						sb.WriteString("\"a\" b" + string(sep) + "1\n")
+					case 2:
+						sb.WriteString("1" + string(sep) + "\"a\"b\"" + string(sep) + "\n")
+					default:
+						sb.WriteString("\"q\"x" + string(sep) + "\"y\"\n")
+					}
 					continue
 				case 2:
 					sb.WriteString("\n") // empty line (skipped by the reader)
